@@ -130,6 +130,32 @@ CLAIMED["C16"] = {
     "surrounding code (delegates to the function under contract).",
 }
 
+CLAIMED["C15"] = {
+    "text": "Standard sampler: proof that nested_sampling_loop starts an "
+    "iteration only while condition > tolerance, leaves by its guard only "
+    "when condition <= tolerance, does not continue past the iteration "
+    "cap, calls finalise iff the tolerance was reached (and not already "
+    "finalised), returns at once without touching state or likelihood "
+    "counters when already finalised; consume_sample sets condition to "
+    "log((Z + Lmax e^{-it/nlive})/Z) with the just-updated evidence; "
+    "finalise consumes each remaining live point once (C01). Importance "
+    "sampler: reached_tolerance = any/all(c_i <= t_i); alias resolution "
+    "maps every documented name to its criterion and unknown names, length "
+    "mismatch and bad check_criteria raise; configure_iterations; the main "
+    "loop leaves at the first iteration >= min_iteration at which "
+    "reached_tolerance holds, or at the cap, does not continue past the "
+    "cap, and a finished sampler returns immediately. Frames of all "
+    "bookkeeping callees discharged by frame inference.",
+    "note": "Assumed (listed as trusted contracts in the evidence): "
+    "NestedSampler.initialise establishes the sampler invariant for a "
+    "fresh run; the INS data-path callees keep the level-selection domain "
+    "INS_LIVE_OK (depends on how many draws land above the threshold); "
+    "compute_stopping_criterion returns one value per configured criterion "
+    "(attribute wiring); history recording (update_history) and the "
+    "numerical values of ESS / evidence-error criteria on real runs are "
+    "not decided here (ESS formula: C16). Termination is not proved.",
+}
+
 NA = {
     "C06": "statistical calibration over seeds: no pre/post-condition on a "
     "function expresses a distributional claim and no deductive back end "
